@@ -261,7 +261,24 @@ void InterfacePayload::setData(const uint8_t* streamIds,
 bool InterfacePayload::isValidPayload(const uint8_t* data, const size_t size)
 {
     auto header = reinterpret_cast<const Header*>(data);
-    return (size >= sizeof(Header) && header->getInterfaceStatus() <= InterfaceStatus::disabled);
+    if (size < sizeof(Header) || header->getInterfaceStatus() > InterfaceStatus::disabled)
+        return false;
+
+    // The stream id list (padded to even length) and the vendor data, each preceded by its 16-bit length, must fit
+    size_t pos = sizeof(Header);
+    if (size - pos < sizeof(uint16_t))
+        return false;
+    size_t length = (static_cast<size_t>(data[pos]) << 8) | data[pos + 1];
+    length += length % 2;
+    pos += sizeof(uint16_t);
+    if (size - pos < length)
+        return false;
+    pos += length;
+    if (size - pos < sizeof(uint16_t))
+        return false;
+    length = (static_cast<size_t>(data[pos]) << 8) | data[pos + 1];
+    pos += sizeof(uint16_t);
+    return size - pos >= length;
 }
 
 const InterfacePayload::Header* InterfacePayload::getHeader() const
